@@ -2,7 +2,9 @@ package main
 
 import (
 	"fmt"
+	"strconv"
 	"strings"
+	"sync"
 	"time"
 
 	"github.com/fluffle/goirc/client"
@@ -173,13 +175,32 @@ func c02Inputs(c *Ctx) []string {
 // c02Stream: the same kinds of lines over a real connection, in batches followed by a sync marker: the client
 // must survive every line (no crash, connection keeps answering), lines that follow are still processed.
 func c02Stream(c *Ctx, inputs []string) {
-	sess, err := newSession(nil, func(cn *client.Conn) { cn.EnableStateTracking() })
+	// numbered well-formed lines are mixed into the stream, one after every second line; a handler records the numbers
+	// it is given (and dawdles now and then, so that more than a queue-full of lines is waiting behind it): whatever
+	// came before, the lines that follow are processed, and in order
+	var seqMu sync.Mutex
+	var seqs []int
+	sess, err := newSession(nil, func(cn *client.Conn) {
+		cn.EnableStateTracking()
+		cn.HandleFunc("PRIVMSG", func(_ *client.Conn, l *client.Line) {
+			if len(l.Args) == 2 && strings.HasPrefix(l.Args[1], "seq-") && l.Nick == "seqsrc" {
+				n, _ := strconv.Atoi(l.Args[1][4:])
+				seqMu.Lock()
+				seqs = append(seqs, n)
+				seqMu.Unlock()
+				if n%60 == 0 {
+					time.Sleep(3 * time.Millisecond)
+				}
+			}
+		})
+	})
 	if err != nil {
 		c.Res.Inconclusive++
 		return
 	}
 	defer sess.close()
 	sess.srv.SendLine(":irc.test 001 me :Welcome me!ident@host")
+	nextSeq, checked := 0, 0
 	batch := 200
 	sent := 0
 	limit := c.Pick(6000, 60000)
@@ -195,6 +216,10 @@ func c02Stream(c *Ctx, inputs []string) {
 			sb.WriteString(l)
 			sb.WriteString("\r\n")
 			k++
+			if k%2 == 0 {
+				sb.WriteString(fmt.Sprintf(":seqsrc!u@h PRIVMSG me :seq-%d\r\n", nextSeq))
+				nextSeq++
+			}
 		}
 		if (i/batch)%5 == 0 {
 			sb.WriteString(extra[(i/batch/5)%len(extra)])
@@ -208,6 +233,24 @@ func c02Stream(c *Ctx, inputs []string) {
 		if !sess.sync(20 * time.Second) {
 			c.SpecFail("spec", fmt.Sprintf("stream batch of %d lines starting with %q", k, trunc(first, 60)), "", "after this batch the client no longer answers (PING sync marker unanswered): later lines are not processed",
 				map[string]interface{}{"op": "line-stream", "first_line_hex": drv.H(first), "batch": k})
+			return
+		}
+		seqMu.Lock()
+		got := append([]int(nil), seqs...)
+		seqMu.Unlock()
+		bad := ""
+		if len(got) != nextSeq {
+			bad = fmt.Sprintf("%d numbered lines were sent so far, the handler was given %d", nextSeq, len(got))
+		}
+		for q := checked; q < len(got) && bad == ""; q++ {
+			if got[q] != q {
+				bad = fmt.Sprintf("numbered line %d was dispatched where line %d was due", got[q], q)
+			}
+		}
+		checked = len(got)
+		if bad != "" {
+			c.SpecFail("spec", fmt.Sprintf("stream batch of %d lines starting with %q, a numbered line after every second one, the handler for those dawdling now and then", k, trunc(first, 60)), "", bad,
+				map[string]interface{}{"op": "line-stream", "first_line_hex": drv.H(first), "batch": k, "numbered_lines": nextSeq})
 			return
 		}
 	}
